@@ -35,7 +35,10 @@ func genRecCase(t *rapid.T) RecCase {
 	c := RecCase{Reconcilers: 1, InfoSpinner: rapid.Bool().Draw(t, "info")}
 	names := []string{"r0", "r1", "r2", "r3", "r4", "r5"}
 	for i, n := 0, rapid.IntRange(4, 30).Draw(t, "n"); i < n; i++ {
-		c.Calls = append(c.Calls, RCall{Kind: rapid.SampledFrom([]string{"create", "create", "delete"}).Draw(t, "kind"), Name: rapid.SampledFrom(names).Draw(t, "name")})
+		// (restore: a small table stream loaded into the name - an existing table or, more interesting here, a NEW name: the catalogue
+		// then holds a record without a shard of its own but with a recovery shard, which reconciliation has to leave alone while it is
+		// being filled; seeded change C14-L: such records were hidden from the reconciler, which stopped the recovery shard)
+		c.Calls = append(c.Calls, RCall{Kind: rapid.SampledFrom([]string{"create", "create", "create", "delete", "delete", "restore"}).Draw(t, "kind"), Name: rapid.SampledFrom(names).Draw(t, "name")})
 	}
 	return c
 }
@@ -80,7 +83,7 @@ func runRecCase(c RecCase, o *vt.Obs) *vt.Failure {
 	finish := func() { stop.Store(true); wg.Wait() }
 	live := map[string]uint64{}
 	var maxID uint64
-	created := 0
+	created, restores := 0, 0
 	for i, call := range c.Calls {
 		switch call.Kind {
 		case "create":
@@ -104,6 +107,32 @@ func runRecCase(c RecCase, o *vt.Obs) *vt.Failure {
 			maxID = tb.ClusterID
 			live[call.Name] = tb.ClusterID
 			created++
+		case "restore":
+			rf, _, err := restoreStream(call.Name, 2, i)
+			if err != nil {
+				finish()
+				vt.Inconclusive("C14 restore stream: " + err.Error())
+				return nil
+			}
+			rerr := e.Restore(call.Name, rf)
+			_ = rf.Close()
+			removeFile(rf.Path())
+			if rerr != nil {
+				finish()
+				return vt.Failf(prop+"/restore-error", i, "restore into %q (catalogued before: %v) while reconciliation rounds are running: %v", call.Name, live[call.Name] != 0, rerr)
+			}
+			tb, err := e.GetTable(call.Name)
+			if err != nil {
+				finish()
+				return vt.Failf(prop+"/restored-table-missing", i, "after a restore into %q: %v", call.Name, err)
+			}
+			if tb.ClusterID <= maxID {
+				finish()
+				return vt.Failf(prop+"/id-not-fresh", i, "restored table %q is served from shard %d, ids up to %d were assigned before", call.Name, tb.ClusterID, maxID)
+			}
+			maxID = tb.ClusterID
+			live[call.Name] = tb.ClusterID
+			restores++
 		case "delete":
 			err := e.DeleteTable(call.Name)
 			if _, exists := live[call.Name]; exists {
@@ -147,6 +176,9 @@ func runRecCase(c RecCase, o *vt.Obs) *vt.Failure {
 	sort.Slice(want, func(i, j int) bool { return want[i] < want[j] })
 	if fmt.Sprint(running) != fmt.Sprint(want) {
 		return vt.Failf(prop+"/reconcile-shards", len(c.Calls), "after the last reconciliation round the node runs table shards %v, the catalogue holds %v", running, want)
+	}
+	if restores > 0 {
+		o.Label("restore-while-reconciliation-rounds-run")
 	}
 	o.LabelN("reconciliation-rounds-during-the-calls", rounds)
 	o.NonTrivial = created >= 2 && rounds >= len(c.Calls)
